@@ -4,7 +4,7 @@ use crate::infra::*;
 use pdatastructs::reservoirsampling::ReservoirSampling;
 use serde_json::json;
 
-pub const RULE: &str = "k in {1,2,3,7,64,1000}, stream = position ids, n across all three phases and their boundaries and up to 1e5 (1e6 thorough); RNGs: FastRng, HostileRng with p in {0.05,0.5,0.95}, scripted prefixes (all-zero / all-ones / alternating words); after every add (n <= 3000) or every 97 adds: len = min(n,k), every item < n, no repeated position, prefix kept in order until the (k+1)-th add, i() = n, is_empty iff n = 0; any panic is a violation. non-trivial = run that reached the gap-sampling phase with >= 1 accepted and >= 1 skipped item; distinct = (k, n, rng) tuples";
+pub const RULE: &str = "k in {1,2,3,7,64,1000}, stream = position ids, n across all three phases and their boundaries and up to 1e5 (1e6 thorough); RNGs: FastRng, HostileRng with p in {0.05,0.5,0.95}, scripted prefixes (all-zero / all-ones / alternating words); after every add (n <= 3000) or every 97 adds: len = min(n,k), every item < n, no repeated position, prefix kept in order until the (k+1)-th add, i() = n, is_empty iff n = 0; any panic is a violation; streams of <= 20000 items are followed by clear() and a second identical round. non-trivial = run that reached the gap-sampling phase with >= 1 accepted and >= 1 skipped item; distinct = (k, n, rng) tuples";
 pub const ASSUMPTIONS: &[&str] = &["hostile RNGs are never constant, so rand's own rejection loops terminate"];
 
 fn rng_for(kind: u64, seed: u64, r: &mut FastRng) -> (CtlRng, String) {
@@ -47,6 +47,16 @@ fn item(ctx: &Ctx, i: usize, rep: &mut Report) {
         }
         let mut seen = vec![0u32; n.max(1)];
         let mut stamp = 0u32;
+        // two rounds: the second one after clear() (a cleared sampler must again hold exactly
+        // min(n, k) items of the new stream, prefix first)
+        let rounds = if n <= 20_000 { 2 } else { 1 };
+        for round in 0..rounds {
+        if round == 1 {
+            s.clear();
+            if !s.is_empty() || s.i() != 0 || !s.reservoir().is_empty() {
+                return Some(("C18/state-after-clear".into(), format!("after clear(): i() = {}, is_empty() = {}, {} items", s.i(), s.is_empty(), s.reservoir().len())));
+            }
+        }
         for p in 0..n {
             s.add(p as u32);
             let cnt = p + 1;
@@ -81,9 +91,10 @@ fn item(ctx: &Ctx, i: usize, rep: &mut Report) {
                 seen[*v as usize] = stamp;
             }
         }
+        }
         None
     });
-    rep.evaluations += n as u64;
+    rep.evaluations += if n <= 20_000 { 2 * n as u64 } else { n as u64 };
     rep.count("runs", 1);
     match res {
         Ok(None) => {
